@@ -184,6 +184,39 @@ class LockDiscipline:
         return None
 
 
+class PrivateScratch:
+    """C13 (operations on different objects do not interfere): a locked operation on one object writes, renames
+    or removes files in the staging root only under that object's own staging directory, plus its lock file and
+    the files that set up the staging repository itself; any other file there would be shared with operations
+    that hold a different object's lock."""
+    name = "private-scratch"
+    BOOT = re.compile(r"(0=ocfl_\d+\.\d+|ocfl_\d+\.\d+\.(txt|md)|ocfl_layout\.json|[0-9]{4}-[a-z0-9-]+\.md|extensions/[0-9]{4}-[a-z0-9-]+/config\.json)$")
+
+    def check(self, s):
+        if s.op.kind not in LOCKED or not s.op.oid:
+            return []
+        sb = s.sb
+        fails = []
+        lock = os.path.join(sb.staging, "extensions", "rocfl-locks", hashlib.sha256(s.op.oid.strip().encode()).hexdigest() + ".lock")
+        sd = os.path.join(sb.staging, staged_dir(s.op.oid.strip()))
+        for c in s.folded:
+            if c.err or c.kind in ("mkdir", "rmdir"):
+                continue
+            ps = c.paths[-1:] if c.kind == "copy" else c.paths
+            for p in ps:
+                if not (p == sb.staging or p.startswith(sb.staging + "/")):
+                    continue
+                rel = os.path.relpath(p, sb.staging)
+                if p == lock or p == sd or p.startswith(sd + "/") or self.BOOT.match(rel):
+                    continue
+                # the staging area of a main repository lives inside it: the main tree is not staging
+                fails.append("`%s`: %s %s is a file in the staging root outside the object's own staging directory (shared with operations on other objects)" % (s.op.kind, c.name, sb.rel(p)))
+        return fails[:3]
+
+    def lean_lines(self, s):
+        return None
+
+
 def install_model_line(s):
     """driver request + expected observed install-phase calls for a successful commit"""
     sb, op = s.sb, s.op
@@ -431,6 +464,28 @@ class OthersStayValid:
             if probs:
                 fails.append("after `%s %s` the object at %s is invalid: %s" % (s.op.kind, s.op.oid, oroot, probs[:2]))
         return fails
+
+    def lean_lines(self, s):
+        return None
+
+
+class AllValid:
+    """C01 on the real binary: after every operation the storage root and every object in it are valid OCFL as judged by
+    vlib/ocflcheck.py (strict: no stray or empty directory anywhere), also after operations that were refused"""
+    name = "all-valid"
+
+    def check(self, s):
+        from vlib import ocflcheck
+        if not os.path.isdir(s.sb.root) or not any(f.startswith("0=ocfl_") for f in os.listdir(s.sb.root)):
+            return []
+        fails = []
+        problems, objs = ocflcheck.check_root(s.sb.root, strict=True, fixity=False)
+        for p in problems[:2]:
+            fails.append("after `%s %s` (rc=%d): storage root: %s" % (s.op.kind, s.op.oid, s.res["rc"], p))
+        for o, ps in objs.items():
+            for p in ps[:2]:
+                fails.append("after `%s %s` (rc=%d): object at %s: %s" % (s.op.kind, s.op.oid, s.res["rc"], o, p))
+        return fails[:4]
 
     def lean_lines(self, s):
         return None
